@@ -175,6 +175,7 @@ func (f *FileSnapshotStore) Create(version SnapshotVersion, index, term uint64,
 		return nil, err
 	}
 
+	verifHook("fs.create.mkdir", path)
 	// Create the sink
 	sink := &FileSnapshotSink{
 		store:     f,
@@ -202,6 +203,7 @@ func (f *FileSnapshotStore) Create(version SnapshotVersion, index, term uint64,
 		return nil, err
 	}
 
+	verifHook("fs.create.meta", path)
 	// Open the state file
 	statePath := filepath.Join(path, stateFilePath)
 	fh, err := os.Create(statePath)
@@ -210,6 +212,7 @@ func (f *FileSnapshotStore) Create(version SnapshotVersion, index, term uint64,
 		return nil, err
 	}
 	sink.stateFile = fh
+	verifHook("fs.create.state", path)
 
 	// Create a CRC64 hash
 	sink.stateHash = crc64.New(crc64.MakeTable(crc64.ECMA))
@@ -373,6 +376,7 @@ func (f *FileSnapshotStore) ReapSnapshots() error {
 	for i := f.retain; i < len(snapshots); i++ {
 		path := filepath.Join(f.path, snapshots[i].ID)
 		f.logger.Info("reaping snapshot", "path", path)
+		verifHook("fs.reap.before", path)
 		if err := os.RemoveAll(path); err != nil {
 			f.logger.Error("failed to reap snapshot", "path", path, "error", err)
 			return err
@@ -411,12 +415,14 @@ func (s *FileSnapshotSink) Close() error {
 		return err
 	}
 
+	verifHook("fs.close.finalized", s.dir)
 	// Write out the meta data
 	if err := s.writeMeta(); err != nil {
 		s.logger.Error("failed to write metadata", "error", err)
 		return err
 	}
 
+	verifHook("fs.close.meta", s.dir)
 	// Move the directory into place
 	newPath := strings.TrimSuffix(s.dir, tmpSuffix)
 	if err := os.Rename(s.dir, newPath); err != nil {
@@ -424,6 +430,7 @@ func (s *FileSnapshotSink) Close() error {
 		return err
 	}
 
+	verifHook("fs.close.renamed", newPath)
 	if !s.noSync && runtime.GOOS != "windows" { // skipping fsync for directory entry edits on Windows, only needed for *nix style file systems
 		parentFH, err := os.Open(s.parentDir)
 		if err != nil {
@@ -438,6 +445,7 @@ func (s *FileSnapshotSink) Close() error {
 		}
 	}
 
+	verifHook("fs.close.dirsynced", newPath)
 	// Reap any old snapshots
 	if err := s.store.ReapSnapshots(); err != nil {
 		return err
@@ -460,6 +468,7 @@ func (s *FileSnapshotSink) Cancel() error {
 		return err
 	}
 
+	verifHook("fs.cancel.finalized", s.dir)
 	// Attempt to remove all artifacts
 	return os.RemoveAll(s.dir)
 }
@@ -471,6 +480,7 @@ func (s *FileSnapshotSink) finalize() error {
 		return err
 	}
 
+	verifHook("fs.finalize.flushed", s.dir)
 	// Sync to force fsync to disk
 	if !s.noSync {
 		if err := s.stateFile.Sync(); err != nil {
@@ -478,6 +488,7 @@ func (s *FileSnapshotSink) finalize() error {
 		}
 	}
 
+	verifHook("fs.finalize.synced", s.dir)
 	// Get the file size
 	stat, statErr := s.stateFile.Stat()
 
@@ -509,6 +520,7 @@ func (s *FileSnapshotSink) writeMeta() error {
 	}
 	defer func() { _ = fh.Close() }()
 
+	verifHook("fs.meta.created", metaPath)
 	// Buffer the file IO
 	buffered := bufio.NewWriter(fh)
 
@@ -522,6 +534,7 @@ func (s *FileSnapshotSink) writeMeta() error {
 		return err
 	}
 
+	verifHook("fs.meta.flushed", metaPath)
 	if !s.noSync {
 		if err = fh.Sync(); err != nil {
 			return err
